@@ -7,10 +7,10 @@ functions at once: no nil dereference, the fuel marker is impossible when the fu
 namespace Ecal.Parse
 open Ecal.Lex
 
-/-- result of an expression parse: has a token, no nil child anywhere -/
-def ResOk (r : Node) : Prop := (∃ t, r.tok = some t) ∧ noNil r = true
+/-- result of an expression parse: has a token; no nil child and only known node names anywhere -/
+def ResOk (r : Node) : Prop := (∃ t, r.tok = some t) ∧ okTree r = true
 /-- result of a function which only appends children to `acc` -/
-def Same (acc r : Node) : Prop := r.tok = acc.tok ∧ noNil r = true
+def Same (acc r : Node) : Prop := r.tok = acc.tok ∧ okTree r = true
 
 macro "spr " h:term : tactic => `(tactic| apply Sat.bind $h (fun _ he => ⟨he.1, fun _ => he.2⟩))
 macro "sih " h:term : tactic => `(tactic| apply Sat.bind $h (fun _ he => ⟨he.1, fun hf => he.2 (by omega)⟩))
@@ -25,25 +25,25 @@ structure Specs (f : Nat) : Prop where
     (fun r p' => Cur p' ∧ p'.toks.length ≤ p.toks.length ∧ ResOk r) (EFuel p 1 f)
   nudOf : ∀ self p, Cur p → Fresh self → self.nud ≠ .none → Sat (nudOf f self) p
     (fun r p' => Cur p' ∧ p'.toks.length ≤ p.toks.length ∧ ResOk r) (EFuel p 3 f)
-  exprList : ∀ stop acc p, Cur p → noNil acc = true → Sat (exprList f stop acc) p
+  exprList : ∀ stop acc p, Cur p → okTree acc = true → Sat (exprList f stop acc) p
     (fun r p' => Cur p' ∧ p'.toks.length ≤ p.toks.length ∧ Same acc r) (EFuel p 2 f)
-  sinkAttrs : ∀ acc p, Cur p → noNil acc = true → Sat (sinkAttrs f acc) p
+  sinkAttrs : ∀ acc p, Cur p → okTree acc = true → Sat (sinkAttrs f acc) p
     (fun r p' => Cur p' ∧ p'.toks.length ≤ p.toks.length ∧ Same acc r) (EFuel p 2 f)
-  guardAndStatements : ∀ acc p, Cur p → noNil acc = true → Sat (guardAndStatements f acc) p
+  guardAndStatements : ∀ acc p, Cur p → okTree acc = true → Sat (guardAndStatements f acc) p
     (fun r p' => Cur p' ∧ p'.toks.length ≤ p.toks.length ∧ Same acc r) (EFuel p 2 f)
-  elifs : ∀ acc p, Cur p → noNil acc = true → Sat (elifs f acc) p
+  elifs : ∀ acc p, Cur p → okTree acc = true → Sat (elifs f acc) p
     (fun r p' => Cur p' ∧ p'.toks.length ≤ p.toks.length ∧ Same acc r) (EFuel p 1 f)
-  excepts : ∀ acc p, Cur p → noNil acc = true → Sat (excepts f acc) p
+  excepts : ∀ acc p, Cur p → okTree acc = true → Sat (excepts f acc) p
     (fun r p' => Cur p' ∧ p'.toks.length ≤ p.toks.length ∧ Same acc r) (EFuel p 1 f)
-  exceptTypes : ∀ acc p, Cur p → noNil acc = true → Sat (exceptTypes f acc) p
+  exceptTypes : ∀ acc p, Cur p → okTree acc = true → Sat (exceptTypes f acc) p
     (fun r p' => Cur p' ∧ p'.toks.length ≤ p.toks.length ∧ Same acc r) (EFuel p 1 f)
-  parseMore : ∀ self acc p, Cur p → (∃ t, self.tok = some t) → noNil acc = true → Sat (parseMore f self acc) p
+  parseMore : ∀ self acc p, Cur p → (∃ t, self.tok = some t) → okTree acc = true → Sat (parseMore f self acc) p
     (fun r p' => Cur p' ∧ p'.toks.length ≤ p.toks.length ∧ Same acc r) (EFuel p 1 f)
-  innerStatements : ∀ acc p, Cur p → noNil acc = true → Sat (innerStatements f acc) p
+  innerStatements : ∀ acc p, Cur p → okTree acc = true → Sat (innerStatements f acc) p
     (fun r p' => Cur p' ∧ p'.toks.length ≤ p.toks.length ∧ Same acc r) (EFuel p 1 f)
-  moreStatements : ∀ acc n p, Cur p → (∃ t, n.tok = some t) → noNil acc = true → Sat (moreStatements f acc n) p
+  moreStatements : ∀ acc n p, Cur p → (∃ t, n.tok = some t) → okTree acc = true → Sat (moreStatements f acc n) p
     (fun r p' => Cur p' ∧ p'.toks.length ≤ p.toks.length ∧ Same acc r) (EFuel p 2 f)
-  topLoop : ∀ acc n p, Cur p → (∃ t, n.tok = some t) → noNil acc = true → Sat (topLoop f acc n) p
+  topLoop : ∀ acc n p, Cur p → (∃ t, n.tok = some t) → okTree acc = true → Sat (topLoop f acc n) p
     (fun r p' => Cur p' ∧ p'.toks.length ≤ p.toks.length ∧ Same acc r) (EFuel p 2 f)
 
 theorem specs_zero : Specs 0 := by
@@ -101,14 +101,15 @@ theorem loopLed_step {f : Nat} (ih : Specs f) (rbp : Nat) (left : Node) (p : P) 
       split
       · exact Sat.pure ⟨hc, Nat.le_refl _, hl⟩
       · exact Sat.throw ⟨by simp [errAt], fun _ => by simp [errAt]⟩
-    · spr (advance_spec _)
+    · next hled =>
+      spr (advance_spec _)
       intro post p1 ⟨hc1, hl1⟩
       sih (ih.run _ _ hc1)
       intro right p2 ⟨hc2, hl2, hr2⟩
       have hfx' := hfx.addMeta post
       have hres : ResOk (((nx.addMeta post).add (some left)).add (some right)) := by
         obtain ⟨t, ht⟩ := hfx'.tok
-        exact ⟨⟨t, by simp [ht]⟩, noNil_add (noNil_add hfx'.noNil hl.2) hr2.2⟩
+        exact ⟨⟨t, by simp [ht]⟩, okTree_add (okTree_add (hfx'.ok_of_led (by simpa using hled)) hl.2) hr2.2⟩
       sih_last (ih.loopLed _ _ _ hc2 hres)
       intro r p3 ⟨hc3, hl3, hr3⟩
       exact ⟨hc3, by omega, hr3⟩
@@ -125,7 +126,7 @@ theorem Same.of_add {acc c r : Node} (h : Same (acc.add c) r) : Same acc r := by
   simpa [Same] using h
 
 theorem exprList_step {f : Nat} (ih : Specs f) (stop : List Nat) (acc : Node) (p : P) (hc : Cur p)
-    (hacc : noNil acc = true) :
+    (hacc : okTree acc = true) :
     Sat (exprList (f+1) stop acc) p (fun r p' => Cur p' ∧ p'.toks.length ≤ p.toks.length ∧ Same acc r)
       (EFuel p 2 (f+1)) := by
   rw [exprList]
@@ -136,13 +137,13 @@ theorem exprList_step {f : Nat} (ih : Specs f) (stop : List Nat) (acc : Node) (p
     intro e p1 ⟨hc1, hl1, hr1⟩
     spr (skipComma_spec hc1)
     intro _ p2 ⟨hc2, hl2⟩
-    sih_last (ih.exprList _ _ _ hc2 (noNil_add hacc hr1.2))
+    sih_last (ih.exprList _ _ _ hc2 (okTree_add hacc hr1.2))
     intro r p3 ⟨hc3, hl3, hs3⟩
     exact ⟨hc3, by omega, hs3.of_add⟩
   · exact Sat.pure ⟨hc, Nat.le_refl _, rfl, hacc⟩
 
 theorem sinkAttrs_step {f : Nat} (ih : Specs f) (acc : Node) (p : P) (hc : Cur p)
-    (hacc : noNil acc = true) :
+    (hacc : okTree acc = true) :
     Sat (sinkAttrs (f+1) acc) p (fun r p' => Cur p' ∧ p'.toks.length ≤ p.toks.length ∧ Same acc r)
       (EFuel p 2 (f+1)) := by
   rw [sinkAttrs]
@@ -153,13 +154,13 @@ theorem sinkAttrs_step {f : Nat} (ih : Specs f) (acc : Node) (p : P) (hc : Cur p
     intro e p1 ⟨hc1, hl1, hr1⟩
     spr (skipComma_spec hc1)
     intro _ p2 ⟨hc2, hl2⟩
-    sih_last (ih.sinkAttrs _ _ hc2 (noNil_add hacc hr1.2))
+    sih_last (ih.sinkAttrs _ _ hc2 (okTree_add hacc hr1.2))
     intro r p3 ⟨hc3, hl3, hs3⟩
     exact ⟨hc3, by omega, hs3.of_add⟩
   · exact Sat.pure ⟨hc, Nat.le_refl _, rfl, hacc⟩
 
 theorem exceptTypes_step {f : Nat} (ih : Specs f) (acc : Node) (p : P) (hc : Cur p)
-    (hacc : noNil acc = true) :
+    (hacc : okTree acc = true) :
     Sat (exceptTypes (f+1) acc) p (fun r p' => Cur p' ∧ p'.toks.length ≤ p.toks.length ∧ Same acc r)
       (EFuel p 1 (f+1)) := by
   rw [exceptTypes]
@@ -167,10 +168,10 @@ theorem exceptTypes_step {f : Nat} (ih : Specs f) (acc : Node) (p : P) (hc : Cur
   rintro b _ rfl
   split
   · spr (acceptChild_spec _ hc)
-    intro e p1 ⟨hc1, hl1, hf1, _⟩
+    intro e p1 ⟨hc1, hl1, hf1, hid1⟩
     spr (skipComma_spec hc1)
     intro _ p2 ⟨hc2, hl2⟩
-    sih_last (ih.exceptTypes _ _ hc2 (noNil_add hacc hf1.noNil))
+    sih_last (ih.exceptTypes _ _ hc2 (okTree_add hacc (accept_ok hf1 hid1 (by decide))))
     intro r p3 ⟨hc3, hl3, hs3⟩
     exact ⟨hc3, by omega, hs3.of_add⟩
   · exact Sat.pure ⟨hc, Nat.le_refl _, rfl, hacc⟩
@@ -184,19 +185,19 @@ theorem braced_run {f : Nat} (ih : Specs f) (p : P) (hc : Cur p) :
     (fun a q' h => ⟨h.1, by rw [← hqt]; exact h.2.1, h.2.2⟩)
 
 theorem guardAndStatements_step {f : Nat} (ih : Specs f) (acc : Node) (p : P) (hc : Cur p)
-    (hacc : noNil acc = true) :
+    (hacc : okTree acc = true) :
     Sat (guardAndStatements (f+1) acc) p (fun r p' => Cur p' ∧ p'.toks.length ≤ p.toks.length ∧ Same acc r)
       (EFuel p 2 (f+1)) := by
   rw [guardAndStatements]
   sih (braced_run ih p hc)
   intro e p1 ⟨hc1, hl1, hr1⟩
   smk
-  sih_last (ih.innerStatements _ _ hc1 (noNil_add hacc (noNil_add (noNil_instanceOf _ _ _) hr1.2)))
+  sih_last (ih.innerStatements _ _ hc1 (okTree_add hacc (okTree_add (okInst (by decide)) hr1.2)))
   intro r p3 ⟨hc3, hl3, hs3⟩
   exact ⟨hc3, by omega, hs3.of_add⟩
 
 theorem elifs_step {f : Nat} (ih : Specs f) (acc : Node) (p : P) (hc : Cur p)
-    (hacc : noNil acc = true) :
+    (hacc : okTree acc = true) :
     Sat (elifs (f+1) acc) p (fun r p' => Cur p' ∧ p'.toks.length ≤ p.toks.length ∧ Same acc r)
       (EFuel p 1 (f+1)) := by
   rw [elifs]
@@ -213,7 +214,7 @@ theorem elifs_step {f : Nat} (ih : Specs f) (acc : Node) (p : P) (hc : Cur p)
   · exact Sat.pure ⟨hc, Nat.le_refl _, rfl, hacc⟩
 
 theorem moreStatements_step {f : Nat} (ih : Specs f) (acc n : Node) (p : P) (hc : Cur p)
-    (hn : ∃ t, n.tok = some t) (hacc : noNil acc = true) :
+    (hn : ∃ t, n.tok = some t) (hacc : okTree acc = true) :
     Sat (moreStatements (f+1) acc n) p (fun r p' => Cur p' ∧ p'.toks.length ≤ p.toks.length ∧ Same acc r)
       (EFuel p 2 (f+1)) := by
   rw [moreStatements]
@@ -228,20 +229,20 @@ theorem moreStatements_step {f : Nat} (ih : Specs f) (acc n : Node) (p : P) (hc 
       intro _ p1 ⟨hc1, hl1⟩
       sih (ih.run _ _ hc1)
       intro e p2 ⟨hc2, hl2, hr2⟩
-      sih_last (ih.moreStatements _ _ _ hc2 hr2.1 (noNil_add hacc hr2.2))
+      sih_last (ih.moreStatements _ _ _ hc2 hr2.1 (okTree_add hacc hr2.2))
       intro r p3 ⟨hc3, hl3, hs3⟩
       exact ⟨hc3, by omega, hs3.of_add⟩
     · split
       · exact Sat.pure ⟨hc, Nat.le_refl _, rfl, hacc⟩
       · sih (ih.run _ _ hc)
         intro e p2 ⟨hc2, hl2, hr2⟩
-        sih_last (ih.moreStatements _ _ _ hc2 hr2.1 (noNil_add hacc hr2.2))
+        sih_last (ih.moreStatements _ _ _ hc2 hr2.1 (okTree_add hacc hr2.2))
         intro r p3 ⟨hc3, hl3, hs3⟩
         exact ⟨hc3, by omega, hs3.of_add⟩
   · exact Sat.pure ⟨hc, Nat.le_refl _, rfl, hacc⟩
 
 theorem topLoop_step {f : Nat} (ih : Specs f) (acc n : Node) (p : P) (hc : Cur p)
-    (hn : ∃ t, n.tok = some t) (hacc : noNil acc = true) :
+    (hn : ∃ t, n.tok = some t) (hacc : okTree acc = true) :
     Sat (topLoop (f+1) acc n) p (fun r p' => Cur p' ∧ p'.toks.length ≤ p.toks.length ∧ Same acc r)
       (EFuel p 2 (f+1)) := by
   rw [topLoop]
@@ -253,13 +254,13 @@ theorem topLoop_step {f : Nat} (ih : Specs f) (acc n : Node) (p : P) (hc : Cur p
     intro _ p1 ⟨hc1, hl1⟩
     sih (ih.run _ _ hc1)
     intro e p2 ⟨hc2, hl2, hr2⟩
-    sih_last (ih.topLoop _ _ _ hc2 hr2.1 (noNil_add hacc hr2.2))
+    sih_last (ih.topLoop _ _ _ hc2 hr2.1 (okTree_add hacc hr2.2))
     intro r p3 ⟨hc3, hl3, hs3⟩
     exact ⟨hc3, by omega, hs3.of_add⟩
   · exact Sat.pure ⟨hc, Nat.le_refl _, rfl, hacc⟩
 
 theorem innerStatements_step {f : Nat} (ih : Specs f) (acc : Node) (p : P) (hc : Cur p)
-    (hacc : noNil acc = true) :
+    (hacc : okTree acc = true) :
     Sat (innerStatements (f+1) acc) p (fun r p' => Cur p' ∧ p'.toks.length ≤ p.toks.length ∧ Same acc r)
       (EFuel p 1 (f+1)) := by
   rw [innerStatements]
@@ -268,23 +269,23 @@ theorem innerStatements_step {f : Nat} (ih : Specs f) (acc : Node) (p : P) (hc :
   smk
   spr (curIsNot_spec _ hc1)
   rintro nr _ rfl
-  apply Sat.bind (Q1 := fun st q => Cur q ∧ q.toks.length ≤ p1.toks.length ∧ noNil st = true)
+  apply Sat.bind (Q1 := fun st q => Cur q ∧ q.toks.length ≤ p1.toks.length ∧ okTree st = true)
     (E1 := EFuel p 1 (f+1)) ?_ (fun _ he => he)
   · intro st p2 ⟨hc2, hl2, hst⟩
     spr (skipToken_spec _ hc2)
     intro _ p3 ⟨hc3, hl3⟩
-    exact Sat.pure ⟨hc3, by omega, by simp, noNil_add hacc hst⟩
+    exact Sat.pure ⟨hc3, by omega, by simp, okTree_add hacc hst⟩
   · split
     · sih (ih.run _ _ hc1)
       intro e p2 ⟨hc2, hl2, hr2⟩
       spr (curIsNot_spec _ hc2)
       rintro pr _ rfl
       split
-      · sih_last (ih.moreStatements _ _ _ hc2 hr2.1 (noNil_add (noNil_instanceOf _ _ _) hr2.2))
+      · sih_last (ih.moreStatements _ _ _ hc2 hr2.1 (okTree_add (okInst (by decide)) hr2.2))
         intro r p3 ⟨hc3, hl3, hs3⟩
         exact ⟨hc3, by omega, hs3.2⟩
-      · exact Sat.pure ⟨hc2, by omega, noNil_instanceOf _ _ _⟩
-    · exact Sat.pure ⟨hc1, Nat.le_refl _, noNil_instanceOf _ _ _⟩
+      · exact Sat.pure ⟨hc2, by omega, okInst (by decide)⟩
+    · exact Sat.pure ⟨hc1, Nat.le_refl _, okInst (by decide)⟩
 
 end Ecal.Parse
 
@@ -292,7 +293,7 @@ namespace Ecal.Parse
 open Ecal.Lex
 
 theorem excepts_step {f : Nat} (ih : Specs f) (acc : Node) (p : P) (hc : Cur p)
-    (hacc : noNil acc = true) :
+    (hacc : okTree acc = true) :
     Sat (excepts (f+1) acc) p (fun r p' => Cur p' ∧ p'.toks.length ≤ p.toks.length ∧ Same acc r)
       (EFuel p 1 (f+1)) := by
   rw [excepts]
@@ -300,34 +301,34 @@ theorem excepts_step {f : Nat} (ih : Specs f) (acc : Node) (p : P) (hc : Cur p)
   rintro b _ rfl
   split
   · spr (acceptChild_spec _ hc)
-    intro ex p1 ⟨hc1, hl1, hf1, _⟩
-    sih (ih.exceptTypes _ _ hc1 hf1.noNil)
+    intro ex p1 ⟨hc1, hl1, hf1, hid1⟩
+    sih (ih.exceptTypes _ _ hc1 (accept_ok hf1 hid1 (by decide)))
     intro ex2 p2 ⟨hc2, hl2, hs2⟩
     spr (curId_spec hc2)
     rintro id _ ⟨rfl, _⟩
-    apply Sat.bind (Q1 := fun ex3 q => Cur q ∧ q.toks.length ≤ p2.toks.length ∧ noNil ex3 = true)
+    apply Sat.bind (Q1 := fun ex3 q => Cur q ∧ q.toks.length ≤ p2.toks.length ∧ okTree ex3 = true)
       (E1 := EFuel p 1 (f+1)) ?_ (fun _ he => he)
     · intro ex3 p3 ⟨hc3, hl3, hn3⟩
       sih (ih.innerStatements _ _ hc3 hn3)
       intro ex4 p4 ⟨hc4, hl4, hs4⟩
-      sih_last (ih.excepts _ _ hc4 (noNil_add hacc hs4.2))
+      sih_last (ih.excepts _ _ hc4 (okTree_add hacc hs4.2))
       intro r p5 ⟨hc5, hl5, hs5⟩
       exact ⟨hc5, by omega, hs5.of_add⟩
     · split
       · spr (acceptChild_spec _ hc2)
-        intro a p3 ⟨hc3, hl3, hf3, _⟩
+        intro a p3 ⟨hc3, hl3, hf3, hid3⟩
         spr (acceptChild_spec _ hc3)
-        intro i p4 ⟨hc4, hl4, hf4, _⟩
-        exact Sat.pure ⟨hc4, by omega, noNil_add hs2.2 (noNil_add hf3.noNil hf4.noNil)⟩
+        intro i p4 ⟨hc4, hl4, hf4, hid4⟩
+        exact Sat.pure ⟨hc4, by omega, okTree_add hs2.2 (okTree_add (accept_ok hf3 hid3 (by decide)) (accept_ok hf4 hid4 (by decide)))⟩
       · split
         · spr (acceptChild_spec _ hc2)
-          intro i p3 ⟨hc3, hl3, hf3, _⟩
-          exact Sat.pure ⟨hc3, by omega, noNil_add hs2.2 hf3.noNil⟩
+          intro i p3 ⟨hc3, hl3, hf3, hid3⟩
+          exact Sat.pure ⟨hc3, by omega, okTree_add hs2.2 (accept_ok hf3 hid3 (by decide))⟩
         · exact Sat.pure ⟨hc2, Nat.le_refl _, hs2.2⟩
   · exact Sat.pure ⟨hc, Nat.le_refl _, rfl, hacc⟩
 
 theorem parseMore_step {f : Nat} (ih : Specs f) (self acc : Node) (p : P) (hc : Cur p)
-    (hself : ∃ t, self.tok = some t) (hacc : noNil acc = true) :
+    (hself : ∃ t, self.tok = some t) (hacc : okTree acc = true) :
     Sat (parseMore (f+1) self acc) p (fun r p' => Cur p' ∧ p'.toks.length ≤ p.toks.length ∧ Same acc r)
       (EFuel p 1 (f+1)) := by
   rw [parseMore]
@@ -337,19 +338,19 @@ theorem parseMore_step {f : Nat} (ih : Specs f) (self acc : Node) (p : P) (hc : 
   · spr (skipToken_spec _ hc)
     intro _ p1 ⟨hc1, hl1⟩
     spr (acceptChild_spec _ hc1)
-    intro nx p2 ⟨hc2, hl2, hf2, _⟩
-    sih (ih.parseMore _ _ _ hc2 hself hf2.noNil)
+    intro nx p2 ⟨hc2, hl2, hf2, hid2⟩
+    sih (ih.parseMore _ _ _ hc2 hself (accept_ok hf2 hid2 (by decide)))
     intro nx' p3 ⟨hc3, hl3, hs3⟩
-    exact Sat.pure ⟨hc3, by omega, by simp, noNil_add hacc hs3.2⟩
+    exact Sat.pure ⟨hc3, by omega, by simp, okTree_add hacc hs3.2⟩
   · split
     · spr (skipToken_spec _ hc)
       intro _ p1 ⟨hc1, hl1⟩
       smk
-      sih (ih.exprList _ _ _ hc1 (noNil_instanceOf _ _ _))
+      sih (ih.exprList _ _ _ hc1 (okInst (by decide)))
       intro fc p2 ⟨hc2, hl2, hs2⟩
       spr (skipToken_spec _ hc2)
       intro _ p3 ⟨hc3, hl3⟩
-      sih_last (ih.parseMore _ _ _ hc3 hself (noNil_add hacc hs2.2))
+      sih_last (ih.parseMore _ _ _ hc3 hself (okTree_add hacc hs2.2))
       intro r p4 ⟨hc4, hl4, hs4⟩
       exact ⟨hc4, by omega, hs4.of_add⟩
     · spr (cur_spec hc)
@@ -369,7 +370,7 @@ theorem parseMore_step {f : Nat} (ih : Specs f) (self acc : Node) (p : P) (hc : 
         intro e p2 ⟨hc2, hl2, hr2⟩
         spr (skipToken_spec _ hc2)
         intro _ p3 ⟨hc3, hl3⟩
-        sih_last (ih.parseMore _ _ _ hc3 hself' (noNil_add hacc (noNil_add (noNil_instanceOf _ _ _) hr2.2)))
+        sih_last (ih.parseMore _ _ _ hc3 hself' (okTree_add hacc (okTree_add (okInst (by decide)) hr2.2)))
         intro r p4 ⟨hc4, hl4, hs4⟩
         exact ⟨hc4, by omega, hs4.of_add⟩
       · exact Sat.pure ⟨hc, Nat.le_refl _, rfl, hacc⟩
@@ -377,9 +378,6 @@ theorem parseMore_step {f : Nat} (ih : Specs f) (self acc : Node) (p : P) (hc : 
 theorem ResOk.of_same {self r : Node} (hf : Fresh self) (h : Same self r) : ResOk r := by
   obtain ⟨t, ht⟩ := hf.tok
   exact ⟨⟨t, h.1.trans ht⟩, h.2⟩
-
-theorem Same.add_fresh {self c : Node} (hf : Fresh self) (hc : noNil c = true) :
-    noNil (self.add (some c)) = true := noNil_add hf.noNil hc
 
 theorem Same.trans_add {self c r : Node} (h : Same (self.add c) r) : Same self r := h.of_add
 
@@ -394,11 +392,12 @@ theorem nudOf_step {f : Nat} (ih : Specs f) (self : Node) (p : P) (hc : Cur p) (
       (EFuel p 3 (f+1)) := by
   rw [nudOf]
   obtain ⟨stok, hstok⟩ := hf.tok
-  have hself : ResOk self := ⟨⟨stok, hstok⟩, hf.noNil⟩
+  have hok : ∀ k, self.nud = k → k ≠ .none → k ≠ .inner → k ≠ .list → k ≠ .map → okTree self = true :=
+    fun k hk h1 h2 h3 h4 => hf.ok_of_nud k hk h1 h2 h3 h4
   split
   · next h => exact absurd h hnud
   · -- term
-    exact Sat.pure ⟨hc, Nat.le_refl _, hself⟩
+    exact Sat.pure ⟨hc, Nat.le_refl _, ⟨_, hstok⟩, (hok _ (by assumption) (by decide) (by decide) (by decide) (by decide))⟩
   · -- inner
     sih (ih.run _ _ hc)
     intro e p1 ⟨hc1, hl1, hr1⟩
@@ -408,44 +407,44 @@ theorem nudOf_step {f : Nat} (ih : Specs f) (self : Node) (p : P) (hc : Cur p) (
   · -- prefix
     sih (ih.run _ _ hc)
     intro e p1 ⟨hc1, hl1, hr1⟩
-    exact Sat.pure ⟨hc1, by omega, ⟨stok, by simp [hstok]⟩, noNil_add hf.noNil hr1.2⟩
+    exact Sat.pure ⟨hc1, by omega, ⟨stok, by simp [hstok]⟩, okTree_add (hok _ (by assumption) (by decide) (by decide) (by decide) (by decide)) hr1.2⟩
   · -- import
     spr (acceptChild_spec _ hc)
-    intro s p1 ⟨hc1, hl1, hf1, _⟩
+    intro s p1 ⟨hc1, hl1, hf1, hid1⟩
     spr (skipToken_spec _ hc1)
     intro _ p2 ⟨hc2, hl2⟩
     spr (acceptChild_spec _ hc2)
-    intro i p3 ⟨hc3, hl3, hf3, _⟩
-    exact Sat.pure ⟨hc3, by omega, ⟨stok, by simp [hstok]⟩, noNil_add (noNil_add hf.noNil hf1.noNil) hf3.noNil⟩
+    intro i p3 ⟨hc3, hl3, hf3, hid3⟩
+    exact Sat.pure ⟨hc3, by omega, ⟨stok, by simp [hstok]⟩, okTree_add (okTree_add (hok _ (by assumption) (by decide) (by decide) (by decide) (by decide)) (accept_ok hf1 hid1 (by decide))) (accept_ok hf3 hid3 (by decide))⟩
   · -- sink
     spr (acceptChild_spec _ hc)
-    intro nm p1 ⟨hc1, hl1, hf1, _⟩
-    sih (ih.sinkAttrs _ _ hc1 (noNil_add hf.noNil hf1.noNil))
+    intro nm p1 ⟨hc1, hl1, hf1, hid1⟩
+    sih (ih.sinkAttrs _ _ hc1 (okTree_add (hok _ (by assumption) (by decide) (by decide) (by decide) (by decide)) (accept_ok hf1 hid1 (by decide))))
     intro s2 p2 ⟨hc2, hl2, hs2⟩
     sih_last (ih.innerStatements _ _ hc2 hs2.2)
     intro r p3 ⟨hc3, hl3, hs3⟩
     exact ⟨hc3, by omega, ⟨stok, by rw [hs3.1, hs2.1]; simp [hstok]⟩, hs3.2⟩
   · -- func
-    apply Sat.bind (Q1 := fun s1 q => Cur q ∧ q.toks.length ≤ p.toks.length ∧ s1.tok = self.tok ∧ noNil s1 = true)
+    apply Sat.bind (Q1 := fun s1 q => Cur q ∧ q.toks.length ≤ p.toks.length ∧ s1.tok = self.tok ∧ okTree s1 = true)
       (E1 := EFuel p 3 (f+1)) ?_ (fun _ he => he)
     · intro s1 p1 ⟨hc1, hl1, ht1, hn1⟩
       spr (skipToken_spec _ hc1)
       intro _ p2 ⟨hc2, hl2⟩
       smk
-      sih (ih.exprList _ _ _ hc2 (noNil_instanceOf _ _ _))
+      sih (ih.exprList _ _ _ hc2 (okInst (by decide)))
       intro ps p3 ⟨hc3, hl3, hs3⟩
       spr (skipToken_spec _ hc3)
       intro _ p4 ⟨hc4, hl4⟩
-      sih_last (ih.innerStatements _ _ hc4 (noNil_add hn1 hs3.2))
+      sih_last (ih.innerStatements _ _ hc4 (okTree_add hn1 hs3.2))
       intro r p5 ⟨hc5, hl5, hs5⟩
       exact ⟨hc5, by omega, ⟨stok, by rw [hs5.1]; simp [ht1, hstok]⟩, hs5.2⟩
     · spr (curId_spec hc)
       rintro id _ ⟨rfl, _⟩
       split
       · spr (acceptChild_spec _ hc)
-        intro i p1 ⟨hc1, hl1, hf1, _⟩
-        exact Sat.pure ⟨hc1, by omega, by simp, noNil_add hf.noNil hf1.noNil⟩
-      · exact Sat.pure ⟨hc, Nat.le_refl _, rfl, hf.noNil⟩
+        intro i p1 ⟨hc1, hl1, hf1, hid1⟩
+        exact Sat.pure ⟨hc1, by omega, by simp, okTree_add (hok _ (by assumption) (by decide) (by decide) (by decide) (by decide)) (accept_ok hf1 hid1 (by decide))⟩
+      · exact Sat.pure ⟨hc, Nat.le_refl _, rfl, (hok _ (by assumption) (by decide) (by decide) (by decide) (by decide))⟩
   · -- return
     spr (tokOf_spec _ hstok)
     rintro _ _ ⟨rfl, rfl⟩
@@ -457,28 +456,28 @@ theorem nudOf_step {f : Nat} (ih : Specs f) (self : Node) (p : P) (hc : Cur p) (
     split
     · sih (ih.run _ _ hc)
       intro e p1 ⟨hc1, hl1, hr1⟩
-      exact Sat.pure ⟨hc1, by omega, ⟨_, by simp; exact hstok⟩, noNil_add hf.noNil hr1.2⟩
-    · exact Sat.pure ⟨hc, Nat.le_refl _, hself⟩
+      exact Sat.pure ⟨hc1, by omega, ⟨_, by simp; exact hstok⟩, okTree_add (hok _ (by assumption) (by decide) (by decide) (by decide) (by decide)) hr1.2⟩
+    · exact Sat.pure ⟨hc, Nat.le_refl _, ⟨_, hstok⟩, (hok _ (by assumption) (by decide) (by decide) (by decide) (by decide))⟩
   · -- identifier
-    sih_last (ih.parseMore _ _ _ hc ⟨stok, hstok⟩ hf.noNil)
+    sih_last (ih.parseMore _ _ _ hc ⟨stok, hstok⟩ (hok _ (by assumption) (by decide) (by decide) (by decide) (by decide)))
     intro r p1 ⟨hc1, hl1, hs1⟩
     exact ⟨hc1, hl1, ResOk.of_same hf hs1⟩
   · -- list
     smk
-    sih (ih.exprList _ _ _ hc (noNil_instanceOf _ _ _))
+    sih (ih.exprList _ _ _ hc (okInst (by decide)))
     intro st p1 ⟨hc1, hl1, hs1⟩
     spr (skipToken_spec _ hc1)
     intro _ p2 ⟨hc2, hl2⟩
     exact Sat.pure ⟨hc2, by omega, ⟨stok, by rw [hs1.1, instanceOf_tok]; exact hstok⟩, hs1.2⟩
   · -- map
     smk
-    sih (ih.exprList _ _ _ hc (noNil_instanceOf _ _ _))
+    sih (ih.exprList _ _ _ hc (okInst (by decide)))
     intro st p1 ⟨hc1, hl1, hs1⟩
     spr (skipToken_spec _ hc1)
     intro _ p2 ⟨hc2, hl2⟩
     exact Sat.pure ⟨hc2, by omega, ⟨stok, by rw [hs1.1, instanceOf_tok]; exact hstok⟩, hs1.2⟩
   · -- guard (if)
-    sih (ih.guardAndStatements _ _ hc hf.noNil)
+    sih (ih.guardAndStatements _ _ hc (hok _ (by assumption) (by decide) (by decide) (by decide) (by decide)))
     intro s1 p1 ⟨hc1, hl1, hs1⟩
     sih (ih.elifs _ _ hc1 hs1.2)
     intro s2 p2 ⟨hc2, hl2, hs2⟩
@@ -490,7 +489,7 @@ theorem nudOf_step {f : Nat} (ih : Specs f) (self : Node) (p : P) (hc : Cur p) (
       smk
       smk
       sih_last (ih.innerStatements _ _ hc3
-        (noNil_add hs2.2 (noNil_add (noNil_instanceOf _ _ _) (noNil_instanceOf _ _ _))))
+        (okTree_add hs2.2 (okTree_add (okInst (by decide)) (okInst (by decide)))))
       intro r p4 ⟨hc4, hl4, hs4⟩
       exact ⟨hc4, by omega, ⟨stok, by rw [hs4.1]; simp [hs2.1, hs1.1, hstok]⟩, hs4.2⟩
     · exact Sat.pure ⟨hc2, by omega, ⟨stok, by rw [hs2.1, hs1.1, hstok]⟩, hs2.2⟩
@@ -500,49 +499,49 @@ theorem nudOf_step {f : Nat} (ih : Specs f) (self : Node) (p : P) (hc : Cur p) (
     obtain ⟨et, het⟩ := hr1.1
     spr (tokOf_spec _ het)
     rintro _ _ ⟨rfl, rfl⟩
-    apply Sat.bind (Q1 := fun g q => q = p1 ∧ noNil g = true) (E1 := EFuel p 3 (f+1)) ?_ (fun _ he => he)
+    apply Sat.bind (Q1 := fun g q => q = p1 ∧ okTree g = true) (E1 := EFuel p 3 (f+1)) ?_ (fun _ he => he)
     · rintro g _ ⟨rfl, hg⟩
-      sih_last (ih.innerStatements _ _ hc1 (noNil_add hf.noNil hg))
+      sih_last (ih.innerStatements _ _ hc1 (okTree_add (hok _ (by assumption) (by decide) (by decide) (by decide) (by decide)) hg))
       intro r p3 ⟨hc3, hl3, hs3⟩
       exact ⟨hc3, by omega, ⟨stok, by rw [hs3.1]; simp [hstok]⟩, hs3.2⟩
     · split
       · smk
-        exact Sat.pure ⟨rfl, noNil_add (noNil_instanceOf _ _ _) hr1.2⟩
+        exact Sat.pure ⟨rfl, okTree_add (okInst (by decide)) hr1.2⟩
       · exact Sat.pure ⟨rfl, hr1.2⟩
   · -- try
-    sih (ih.innerStatements _ _ hc hf.noNil)
+    sih (ih.innerStatements _ _ hc (hok _ (by assumption) (by decide) (by decide) (by decide) (by decide)))
     intro t1 p1 ⟨hc1, hl1, hs1⟩
     sih (ih.excepts _ _ hc1 hs1.2)
     intro t2 p2 ⟨hc2, hl2, hs2⟩
-    apply Sat.bind (Q1 := fun t3 q => Cur q ∧ q.toks.length ≤ p2.toks.length ∧ t3.tok = self.tok ∧ noNil t3 = true)
+    apply Sat.bind (Q1 := fun t3 q => Cur q ∧ q.toks.length ≤ p2.toks.length ∧ t3.tok = self.tok ∧ okTree t3 = true)
       (E1 := EFuel p 3 (f+1)) ?_ (fun _ he => he)
     · intro t3 p3 ⟨hc3, hl3, ht3, hn3⟩
       spr (curId_spec hc3)
       rintro id _ ⟨rfl, _⟩
       split
       · spr (acceptChild_spec _ hc3)
-        intro fi p4 ⟨hc4, hl4, hf4, _⟩
-        sih (ih.innerStatements _ _ hc4 hf4.noNil)
+        intro fi p4 ⟨hc4, hl4, hf4, hid4⟩
+        sih (ih.innerStatements _ _ hc4 (accept_ok hf4 hid4 (by decide)))
         intro fi2 p5 ⟨hc5, hl5, hs5⟩
-        exact Sat.pure ⟨hc5, by omega, ⟨stok, by simp [ht3, hstok]⟩, noNil_add hn3 hs5.2⟩
+        exact Sat.pure ⟨hc5, by omega, ⟨stok, by simp [ht3, hstok]⟩, okTree_add hn3 hs5.2⟩
       · exact Sat.pure ⟨hc3, by omega, ⟨stok, by rw [ht3, hstok]⟩, hn3⟩
     · spr (curId_spec hc2)
       rintro id _ ⟨rfl, _⟩
       split
       · spr (acceptChild_spec _ hc2)
-        intro o p3 ⟨hc3, hl3, hf3, _⟩
-        sih (ih.innerStatements _ _ hc3 hf3.noNil)
+        intro o p3 ⟨hc3, hl3, hf3, hid3⟩
+        sih (ih.innerStatements _ _ hc3 (accept_ok hf3 hid3 (by decide)))
         intro o2 p4 ⟨hc4, hl4, hs4⟩
-        exact Sat.pure ⟨hc4, by omega, by simp [hs2.1, hs1.1], noNil_add hs2.2 hs4.2⟩
+        exact Sat.pure ⟨hc4, by omega, by simp [hs2.1, hs1.1], okTree_add hs2.2 hs4.2⟩
       · exact Sat.pure ⟨hc2, Nat.le_refl _, by rw [hs2.1, hs1.1], hs2.2⟩
   · -- mutex
     spr (acceptChild_spec _ hc)
-    intro i p1 ⟨hc1, hl1, hf1, _⟩
-    sih_last (ih.innerStatements _ _ hc1 (noNil_add hf.noNil hf1.noNil))
+    intro i p1 ⟨hc1, hl1, hf1, hid1⟩
+    sih_last (ih.innerStatements _ _ hc1 (okTree_add (hok _ (by assumption) (by decide) (by decide) (by decide) (by decide)) (accept_ok hf1 hid1 (by decide))))
     intro r p2 ⟨hc2, hl2, hs2⟩
     exact ⟨hc2, by omega, ⟨stok, by rw [hs2.1]; simp [hstok]⟩, hs2.2⟩
   · -- block
-    sih_last (ih.innerStatements _ _ hc hf.noNil)
+    sih_last (ih.innerStatements _ _ hc (hok _ (by assumption) (by decide) (by decide) (by decide) (by decide)))
     intro r p1 ⟨hc1, hl1, hs1⟩
     exact ⟨hc1, hl1, ResOk.of_same hf hs1⟩
 
@@ -563,7 +562,7 @@ open Ecal.Lex
 
 /-- ParseWithRuntime's body on any token list with any fuel -/
 theorem parseBody_spec (fuel : Nat) (toks : List Tok) :
-    Sat (parseBody fuel) { toks := toks, node := none } (fun r _ => noNil r = true)
+    Sat (parseBody fuel) { toks := toks, node := none } (fun r _ => okTree r = true)
       (fun e => e ≠ .panic ∧ (4 * toks.length + 4 ≤ fuel → e ≠ .fuel)) := by
   have ih := specs fuel
   unfold parseBody
@@ -572,7 +571,7 @@ theorem parseBody_spec (fuel : Nat) (toks : List Tok) :
   simp only at hl1
   apply Sat.bind (ih.run _ _ hc1) (fun _ he => ⟨he.1, fun hf => he.2 (by omega)⟩)
   intro n p2 ⟨hc2, hl2, hr2⟩
-  apply Sat.bind (Q1 := fun n' q => Cur q ∧ noNil n' = true)
+  apply Sat.bind (Q1 := fun n' q => Cur q ∧ okTree n' = true)
     (E1 := fun e => e ≠ .panic ∧ (4 * toks.length + 4 ≤ fuel → e ≠ .fuel)) ?_ (fun _ he => he)
   · intro n' p3 ⟨hc3, hn3⟩
     apply Sat.bind (Sat.getP (Q := fun a p' => p3 = a ∧ p3 = p') ⟨rfl, rfl⟩) (fun _ he => he)
@@ -590,7 +589,7 @@ theorem parseBody_spec (fuel : Nat) (toks : List Tok) :
     rintro b _ rfl
     split
     · smk
-      apply Sat.mono (ih.topLoop _ _ _ hc2 hr2.1 (noNil_add (noNil_instanceOf _ _ _) hr2.2))
+      apply Sat.mono (ih.topLoop _ _ _ hc2 hr2.1 (okTree_add (okInst (by decide)) hr2.2))
         (fun _ he => ⟨he.1, fun hf => he.2 (by omega)⟩)
       intro r p3 ⟨hc3, _, hs3⟩
       exact ⟨hc3, hs3.2⟩
